@@ -110,4 +110,33 @@ theorem feed_chunks {dl r : Nat} (hrate : rate dl = some r) (hr : 0 < r) (chunks
     simp only [Context.update_mut, process_spec dl r hrate hr m c, Option.bind_eq_bind, Option.bind_some]
     rw [ih (m ++ c)]; simp
 
+/-! ## the two Lean executors of the correspondence agree on EVERY request line of these ops
+   (so `cxdrv impl` ≠ `cxdrv spec` can never be the reason of a reported disagreement) -/
+
+theorem driver_hctx_agree (a : Alg) (ha : a ∈ algs) (args : List String) : hctxImpl a args = hctxSpec a args := by
+  unfold hctxImpl hctxSpec h1
+  match args with
+  | [] => rfl
+  | [p] =>
+    simp only
+    cases parseProg p with
+    | none => rfl
+    | some ops => simp only [Option.map_some, run_from_new a ha ops]
+  | _ :: _ :: _ => rfl
+
+theorem driver_hash_agree (a : Alg) (ha : a ∈ algs) (args : List String) : hashImpl a args = hashSpec a args := by
+  obtain ⟨r, sfx, ok⟩ := algs_ok a ha
+  unfold hashImpl hashSpec h1
+  match args with
+  | [] => rfl
+  | [p] =>
+    simp only
+    cases hexArg p with
+    | none => rfl
+    | some msg =>
+      have h1 := hash_spec ok.hv msg
+      have h2 : (Context.update a.dl Context.new msg).bind (Context.finalize a.dl a.ds) = some (sponge r msg sfx a.dl) := h1
+      simp only [Option.map_some, h1, h2, ok.hspec]
+  | _ :: _ :: _ => rfl
+
 end Cx.Proofs.Sponge
